@@ -15,7 +15,9 @@ import (
 	"hzcheck/zone"
 )
 
-func init() { register("C08", c08Range, c08Len, c08Refs, c08Reuse, c08Lock, c08Head, c08Precond, c08Stale) }
+func init() {
+	register("C08", c08Range, c08Len, c08Refs, c08Reuse, c08Lock, c08Head, c08Precond, c08Stale)
+}
 
 // C08.range — postcondition of ParseByteRange under contentLength ≥ 0.
 func c08Range(e *Env) {
